@@ -47,6 +47,24 @@ CHECKS["C13"] = ("cache", "exploration",
     "Same scheduler on damage-free histories (identical concurrent puts, nested/subsuming puts, eviction during get, racing deletions, re-opens with the same capacity): counters == tracked entries at every schedule point, capacity bound after every completed insertion, at quiescence every file is a tracked entry, read-back drops file-less entries (shadowed ones accounted explicitly), totals == directory, and again after re-open.",
     CACHE_NOTE, "§7 C13")
 
+SHARD_NOTE = "Trusted: the independent shard parser and hash code in sim/src/refmodel.rs, blake3. Inputs (model shards, queries, histories) are seeded generation; the simulated dimensions are reader delivery (short reads, Pending), the wall clock and file mtimes (H6), and directory histories."
+CHECKS["C05"] = ("shard", "exploration",
+    "deterministic simulation of shard-directory histories (add/flush/plant/consolidate/keyed re-export/re-open under a simulated clock) with a reference chunk->xorb model; reader-seam fault injection (short reads)",
+    "Every dedup answer from the real in-memory index, the on-disk shard (through a short-reading reader) and the ShardFileManager (after each step of a seeded directory history incl. keyed shards under several keys) is checked for truthfulness against the model of all xorbs ever added: 1<=n<=|query|, range width n, positions hold the queried hashes (engineered duplicate chunks and colliding 64-bit prefixes), byte count = sum of lengths. Misses are always allowed here.",
+    SHARD_NOTE, "§7 C05")
+CHECKS["C09"] = ("shard", "exploration",
+    "reader-seam simulation (seeded short reads, Pending polls, fragment walker) of the seekable, minimal and streaming shard readers against the record model and an independent shard parser",
+    "Model shards up to 700 files / 60 xorbs / 3000 chunks per xorb (interpolation phase live), four key distributions incl. <=7 equal truncated prefixes, extremes and dense clusters, five flag modes, re-insertion of identical records; serialised by the real code, parsed independently (records, order, three lookup tables, totals, size estimate) and queried for every/sampled contained and absent key through readers whose delivery is drawn from the seed.",
+    SHARD_NOTE, "§7 C09")
+CHECKS["C10"] = ("shard", "exploration",
+    "deterministic simulation of shard-directory histories with simulated mtimes (ordered, tied, reversed) plus cursor-level set operations through short-reading readers; record-set conservation oracle",
+    "Union/difference of overlapping/identical/empty/flag-variant model shards are compared with the set-theoretic result (richer variant kept) and must themselves satisfy C09's structural and lookup clauses; consolidate_shards_in_directory runs inside seeded directory histories under thresholds from merge-nothing to merge-all: retrievable record set unchanged, every returned shard exists and is named by its content hash, a shard is deleted only if all its records are in a returned shard, files added earlier stay retrievable through a re-opened manager.",
+    SHARD_NOTE, "§7 C10")
+CHECKS["C18"] = ("shard", "exploration",
+    "deterministic simulation of keyed re-export histories under a simulated clock (creation/expiry/grace orderings) with byte-level oracle from an independent parser and HMAC implementation",
+    "Shards are re-exported under 4 keys (incl. zero) x 8 include-flag combinations; the exported bytes must carry keyed chunk hashes and table keys only, unchanged xorb/file hashes, sections iff requested, creation/expiry from the simulated clock; a manager over only the keyed export must answer unkeyed queries exactly like a manager over the original whenever the first chunk is unambiguous (with and without lookup tables); shards past expiry never load, deletion only at expiry+grace.",
+    SHARD_NOTE, "§7 C18")
+
 NOT_APPLICABLE = {
     "C06": "Every clause is a pure function of its input (hash identities, text-form round trips, avalanche); there is no schedule, clock, fault or history for a simulator to control, so deterministic simulation does not apply (DESIGN §7 C06). The independent hash implementations are exercised as oracles of C02/C03/C08.",
 }
